@@ -16,17 +16,21 @@ import random
 from harness import absval, core, repo
 from harness.repo import Cell
 
-KINDS = ['int', 'float', 'bool', 'text', 'datetime', 'negint', 'array', 'date', 'boolf', 'bigint']
+KINDS = ['int', 'float', 'bool', 'one', 'text', 'datetime', 'negint', 'zero', 'array', 'date', 'boolf', 'bigint']
 
 
 def planted(kind, c, r):
     """value written into the workbook"""
     if kind == 'int':
-        return 1000 * (c % 97) + r
+        return 1000 * (c % 97) + r + 2
     if kind == 'float':
         return (c % 97) + r / 8 + 0.0625
     if kind == 'bool':
         return True
+    if kind == 'one':          # the integer 1 next to the boolean TRUE, the integer 0 next to FALSE: equal values, different stored types
+        return 1
+    if kind == 'zero':
+        return 0
     if kind == 'boolf':
         return False
     if kind == 'text':
